@@ -476,7 +476,8 @@ def main(argv: list[str]) -> int:
         env.cleanup_now()
         return rc
 
-    n_runs = a.runs or int(os.environ.get("VERIF_RUNS") or 0) or mod.RUNS[a.tier]
+    n_runs = a.runs or int(os.environ.get("VERIF_RUNS") or 0) or (
+        mod.runs(a.tier) if hasattr(mod, "runs") else mod.RUNS[a.tier])
     budget = a.budget or float(os.environ.get("VERIF_BUDGET_S") or 0) or mod.BUDGET_S[a.tier]
     workers = a.workers or int(os.environ.get("VERIF_WORKERS") or 0) or min(16, os.cpu_count() or 1)
     if hasattr(mod, "prepare"):
